@@ -4,7 +4,8 @@
    RecoverExact, VerifyDetects, BackupOnlyCompleteTxns (+ IncrWithinFile, RepoShape, ObsDerived).
 2. With a deviation constant set to the behaviour of the code TLC exhibits the violation
    (QuickTrustsEmptyRange: F14, quick mode trusting the md5 of an empty range; ChainByListing: F18, the chain
-   taken from the directory listing alone).  Each counterexample is replayed on the real code to its end: if
+   taken from the directory listing alone; NoopPackRewrites: a pack that frees nothing rewriting the data file,
+   which quick mode - size + last backed-up range - cannot notice).  Each counterexample is replayed on the real code to its end: if
    the code shows the violation the constant stays set for step 3 (and the violation is reported with its
    structural signature), if the property holds on it the repaired behaviour is the model of this tree.
 3. TLC dumps the whole state graph of that model; every transition is replayed on a real FileStorage + the
@@ -28,7 +29,7 @@ ALL_OPTS = tuple(range(16))
 
 ASSUME = ['TLC results are exhaustive only within the stated constants (chunks, operations, backup runs)',
           'one chunk per transaction, all transactions of equal byte size within a replay (sizes 1x, ~3 KiB, ~20 KiB across '
-          'replays); a pack drops a prefix of the transactions and changes every remaining byte range (asserted by the driver)',
+          'replays); every transaction writes the same object: a pack to the time after the k-th transaction frees the k-1 before it and changes every remaining byte range (asserted by the driver), k = 1 frees nothing and must leave the file alone (a file that changed all the same is taken as it is and the recovery judged against it)',
           'md5 is modelled as injective; gzip, md5 and the FileStorage format are exercised only as far as the replays go',
           'fsync is a no-op in the replays (durability of the backup files is not part of C18)',
           'damage is one file of the newest chain: removed, truncated (seeded cut), or one byte altered (seeded position; '
@@ -36,10 +37,11 @@ ASSUME = ['TLC results are exhaustive only within the stated constants (chunks, 
           'transaction, persistent, zodbpickle trusted as installed']
 
 
-def consts(opts, chunks, ops, backups, empty_incr, by_listing):
+def consts(opts, chunks, ops, backups, empty_incr, by_listing, noop_rewrites=False):
     return {'MaxChunks': chunks, 'MaxOps': ops, 'MaxBackups': backups,
             'Opts': '{' + ', '.join(str(o) for o in sorted(opts)) + '}',
-            'QuickTrustsEmptyRange': 'TRUE' if empty_incr else 'FALSE', 'ChainByListing': 'TRUE' if by_listing else 'FALSE'}
+            'QuickTrustsEmptyRange': 'TRUE' if empty_incr else 'FALSE', 'ChainByListing': 'TRUE' if by_listing else 'FALSE',
+            'NoopPackRewrites': 'TRUE' if noop_rewrites else 'FALSE'}
 
 
 def cfg(ctx, name, c, invariants=(), next_='Next'):
@@ -181,9 +183,13 @@ def run(ctx):
                            name='as-code-chain-by-listing-verify', expect_violation='VerifyDetects', timeout=600, workers=1, extra=('-fp', '18'))
     r18r = ctx.model_check(SPEC, cfg(ctx, 'f18r', consts(small, 3, 7, 3, False, True), ['RecoverExact'], next_='NextMissingNoTail'),
                            name='as-code-chain-by-listing-recover', expect_violation='RecoverExact', timeout=600, workers=1, extra=('-fp', '18'))
+    # quick mode is sound only because a pack that frees nothing leaves the data file alone: were it rewritten (same
+    # size, packed flags set) TLC shows the recovery that is no longer the data file
+    rnp = ctx.model_check(SPEC, cfg(ctx, 'noop-pack', consts(small, 3, 7, 3, False, False, True), ['RecoverExact'], next_='NextNoDamage'),
+                          name='noop-pack-rewrites-file', expect_violation='RecoverExact', timeout=600, workers=1, extra=('-fp', '18'))
     cx = {}
     for i, (name, r, clause) in enumerate((('empty-incremental', r14, 'recover'), ('listing-verify', r18v, 'verify'),
-                                           ('listing-recover', r18r, 'recover'))):
+                                           ('listing-recover', r18r, 'recover'), ('noop-pack-rewrites', rnp, 'recover'))):
         res = replay_trace(ctx, r.trace, name, i)
         cx[name] = exhibits(res, clause)
         # divergences from the model on the way are judged by the graph replay, under the constants chosen here
@@ -194,21 +200,32 @@ def run(ctx):
         judge(ctx, [res], 'TLC counterexample ' + name, cov)
     empty_incr = cx['empty-incremental']
     by_listing = cx['listing-verify'] or cx['listing-recover']
-    cov['constants_matching_tree'] = {'QuickTrustsEmptyRange': empty_incr, 'ChainByListing': by_listing}
+    noop = cx['noop-pack-rewrites']
+    cov['constants_matching_tree'] = {'QuickTrustsEmptyRange': empty_incr, 'ChainByListing': by_listing, 'NoopPackRewrites': noop}
     # 3. conformance + property on the whole graph of the model of the code as it is
     if q:
         opts = option_sets(ctx.seed)
-        graph_replay(ctx, 'quick', consts(opts, 3, 6, 3, empty_incr, by_listing), cov)
+        graph_replay(ctx, 'quick', consts(opts, 3, 6, 3, empty_incr, by_listing, noop), cov)
     else:
-        graph_replay(ctx, 'all-options', consts(ALL_OPTS, 3, 7, 3, empty_incr, by_listing), cov)
+        graph_replay(ctx, 'all-options', consts(ALL_OPTS, 3, 7, 3, empty_incr, by_listing, noop), cov)
         for j in range(2):
             opts = option_sets(ctx.seed + 1 + j)
-            graph_replay(ctx, 'deep-%d' % j, consts(opts, 4, 8, 4, empty_incr, by_listing), cov, keep=0.25, primary=False)
+            graph_replay(ctx, 'deep-%d' % j, consts(opts, 4, 8, 4, empty_incr, by_listing, noop), cov, keep=0.25, primary=False)
     need = ['Commit', 'BeginTail', 'AbortTail', 'Pack', 'Backup', 'Damage:missing', 'Damage:trunc', 'Damage:alt']
     lacking = [a for a in need if not cov['actions'].get(a)]
+    cov['packs_before_backup'] = {k: v for k, v in cov['decisions'].items() if k.startswith('pack-')}
+    cov['decisions'] = {k: v for k, v in cov['decisions'].items() if not k.startswith('pack-')}
     decs = {d.split('/')[0] for d in cov['decisions']}
+    # interleavings of packs and backups that must have been replayed: a pack that freed something / nothing (the
+    # latter: 'nothing-freed', or 'rewritten' when the tree under test rewrites the file) followed by a quick run and
+    # by a comparing run, and a pack that freed nothing after an incremental followed by a quick run
+    pk = cov['packs_before_backup']
+    nothing = 'rewritten' if noop else 'nothing-freed'
+    need_packs = ['pack-freed>quick', 'pack-freed>comparing', 'pack-%s>quick' % nothing, 'pack-%s>comparing' % nothing,
+                  'pack-nothing-freed-after-incremental>quick']
+    lacking += [k for k in need_packs if not pk.get(k)]
     if lacking or not {'full', 'incr', 'nochange'} <= decs:
-        raise RuntimeError('vacuous replay: actions never taken %r, decisions seen %r' % (lacking, sorted(decs)))
+        raise RuntimeError('vacuous replay: never exercised %r, decisions seen %r, packs %r' % (lacking, sorted(decs), pk))
     distinct, nontrivial = len(cov.pop('_distinct')), len(cov.pop('_nontrivial'))
     exhaustive = all(not g['sampled'] for g in cov['graphs'].values() if g['primary'])
     return ctx.finish({
@@ -220,7 +237,8 @@ def run(ctx):
                 'decision, the directory, the new file, its .index and the .dat lines are compared with the state TLC printed '
                 'and a recovery as of now is made; on the first visit of every state recovery as of every run date and full + '
                 'quick verification are real calls compared with TLC\'s obs table, and every Damage transition of the state is '
-                'applied, observed the same way and undone; distinct = distinct action sequence; non-trivial = at least two '
+                'applied, observed the same way and undone; packs are made at every pack time of the file (after the k-th '
+                'transaction, k = 1 frees nothing) between backups of every option combination of the graph; distinct = distinct action sequence; non-trivial = at least two '
                 'backup runs, or a backup run and a damaged file; exhaustive refers to the primary graph (3 chunks, 3 backup '
                 'runs, %s operations, %s): all of its transitions and states are replayed; the thorough tier adds seeded '
                 'samples (a quarter of the subtrees) of two deeper graphs (4 chunks, 4 runs, 8 operations)' % (
@@ -232,6 +250,7 @@ def run(ctx):
         'real_calls': cov['calls'],
         'actions': cov['actions'],
         'decisions': cov['decisions'],
+        'packs_before_backup': cov['packs_before_backup'],
         'graphs': cov['graphs'],
         'tlc_counterexamples': cov['counterexamples'],
         'violations_by_signature': cov['violation_counts'],
